@@ -94,3 +94,18 @@ Theorem C02_point_unique : forall p1 d : str,
   line_of p1 = line_of (p1 ++ d) -> col_of p1 = col_of (p1 ++ d) -> d = [].
 Proof. exact point_unique. Qed.
 Print Assumptions C02_point_unique.
+
+(* Located rejections.  Every ParseException raised while parsing a token stream carries the
+   position of one of its tokens, of the end of input, or of the lexer error ... *)
+From MV Require Import Syntax.ErrPos.
+Theorem C02_parser_error_is_a_known_position : forall fuel st p,
+  parse_tokens fuel st = Err p -> PS st p.
+Proof. exact parse_tokens_error_located. Qed.
+Print Assumptions C02_parser_error_is_a_known_position.
+(* ... hence every rejected text carries a line/column that denotes a point inside the text
+   (the end of a prefix, or for the end-of-input error the start of the last token plus its
+   length), or (0,0) for a byte-order mark. *)
+Theorem C02_rejection_located : forall s p,
+  parse s = Err p -> located s p \/ (p = (0, 0) /\ exists r, s = c_bom :: r).
+Proof. exact parse_error_located. Qed.
+Print Assumptions C02_rejection_located.
